@@ -95,12 +95,29 @@ def build():
     return exe
 
 
+def _is_known_finding(pid, v):
+    """same test as props.run_property: the failed obligation is a `__finding_` twin listed in known_findings.txt"""
+    try:
+        from . import driver
+        from .propdefs import PROPS
+        for k in driver.load_known_findings()["finding"]:
+            if k.get("obligation") == v.get("obligation") and (
+                    k.get("property") == pid or v.get("unit") not in PROPS[pid].get("units", [])):
+                return True
+    except Exception:
+        pass
+    return False
+
+
 def search_witness(pid, v, seed):
     """Run the seeded boundary/random search of the replay crate for the failed obligation.
     Returns a dict (input + observed vs expected) or None."""
     fn = v["fn"].split("::")[-1]
     if v.get("kani"):
         return v["kani"].get("witness")
+    if _is_known_finding(pid, v):
+        # the check reports KNOWN-FINDING for it and drops the witness: no build, no search on the unchanged tree
+        return None
     import time
     t0 = time.time()
     try:
